@@ -44,6 +44,7 @@ import (
 	"strconv"
 	"strings"
 	"sync/atomic"
+	"syscall"
 	"time"
 
 	"github.com/miscreant/miscreant.go"
@@ -98,6 +99,7 @@ type env struct {
 	srvTLS   *tls.Config
 	aged     time.Duration      // how much older the provider has been made so far
 	keys     map[uint16]keyInfo // every server key seen as the current one: value and end of validity
+	seen     map[string]bool    // every cookie the servers handed out in this run
 }
 
 // keyInfo: a key as handed out by provider.Current(); its validity ends at
@@ -150,7 +152,7 @@ func fatal(f string, a ...any) {
 }
 
 func newEnv() *env {
-	e := &env{ip: ownAddr(11), ip2: ownAddr(211), log: slog.New(slog.DiscardHandler), keys: map[uint16]keyInfo{}}
+	e := &env{ip: ownAddr(11), ip2: ownAddr(211), log: slog.New(slog.DiscardHandler), keys: map[uint16]keyInfo{}, seen: map[string]bool{}}
 	if os.Getenv("C11_DEBUG") != "" {
 		e.log = slog.New(slog.NewTextHandler(os.Stderr, &slog.HandlerOptions{Level: slog.LevelDebug}))
 	}
@@ -223,8 +225,8 @@ func newEnv() *env {
 			time.Sleep(50 * time.Millisecond)
 		}
 	}
-	e.front = newKeFront(e, e.ip)
-	e.front2 = newKeFront(e, e.ip2)
+	e.front = newKeFront(e, e.ip, relayPort)
+	e.front2 = newKeFront(e, e.ip2, scionPort)
 	// the default NTP port of this address: a client that ignores what the key exchange
 	// told it ends up here; it is answered at once with two datagrams it cannot use
 	stray, err := net.ListenUDP("udp4", &net.UDPAddr{IP: e.ip, Port: ntp.ServerPortIP})
@@ -371,6 +373,36 @@ func (e *env) toServer(req []byte) (replies [][]byte) {
 	}
 }
 
+// drainOne takes one datagram out of the relay's queue without waiting; nil if there is none.
+func (x *cl) drainOne() []byte {
+	rc, err := x.sock.SyscallConn()
+	if err != nil {
+		return nil
+	}
+	buf := make([]byte, 4096)
+	n := -1
+	rc.Read(func(fd uintptr) bool {
+		m, _, err := syscall.Recvfrom(int(fd), buf, syscall.MSG_DONTWAIT)
+		if err == nil {
+			n = m
+		}
+		return true
+	})
+	if n < 0 {
+		return nil
+	}
+	return append([]byte(nil), buf[:n]...)
+}
+
+// forClient: an NTP/NTS payload as the client's transport carries it.  For the SCION client a
+// SCION/UDP packet from the server's address to the request's source, without extension headers.
+func (x *cl) forClient(payload, rawReq []byte) []byte {
+	if !x.scion {
+		return payload
+	}
+	return replySCION(payload, rawReq)
+}
+
 // junk: a datagram the client cannot use (for the SCION client: not a SCION packet)
 func (x *cl) junk() []byte {
 	if x.scion {
@@ -388,16 +420,17 @@ func junk() []byte {
 
 // actions of the relay
 const (
-	actDeliver   = 0 // request and reply pass
-	actDropReq   = 1 // request lost
-	actDropReply = 2 // reply lost
-	actTamper    = 3 // one bit of the reply changed
-	actReplay    = 4 // an earlier reply of this history delivered instead
-	actTimeout   = 5 // request lost, the client runs into its deadline
-	actKeFail    = 6 // a key exchange, if one is needed, fails; otherwise as actDeliver
-	actDupReq    = 7 // the request reaches the server twice; the first reply passes
-	actForge     = 8 // a forged datagram with cleartext cookie fields arrives before the genuine reply
-	actKeBadSrv  = 9 // a key exchange, if one is needed, succeeds but names a server that is not an IP address; otherwise as actDeliver
+	actDeliver   = 0  // request and reply pass
+	actDropReq   = 1  // request lost
+	actDropReply = 2  // reply lost
+	actTamper    = 3  // one bit of the reply changed
+	actReplay    = 4  // an earlier reply of this history delivered instead
+	actTimeout   = 5  // request lost, the client runs into its deadline
+	actKeFail    = 6  // a key exchange, if one is needed, fails; otherwise as actDeliver
+	actDupReq    = 7  // the request reaches the server twice; the first reply passes
+	actForge     = 8  // a forged datagram with cleartext cookie fields arrives before the genuine reply
+	actKeOdd     = 10 // a key exchange, if one is needed, hands out 1..7 cookies, or eight of another length; otherwise as actDeliver
+	actKeBadSrv  = 9  // a key exchange, if one is needed, succeeds but names a server that is not an IP address; otherwise as actDeliver
 )
 
 type step struct {
@@ -414,6 +447,11 @@ type stepObs struct {
 	openable   bool
 	curKey     int64    // the provider's current key id right after the reply (-1: not asked)
 	forged     [][]byte // cookies of a forged datagram delivered to the client
+	late       bool     // the request was found in the relay's queue only after the call had returned
+	strayReqs  int      // further datagrams of the client after its request
+	extra      []string // the replies after the first: [bytes authentic cookies]
+	issued     [][]byte // every cookie the servers handed to this client in this call
+	seenBefore [][]byte // ... that had been handed out before in this run
 	noSend     int      // nothing reached the relay although the fetcher holds data: 1 the short allowance of a timeout step passed first, 2 the server named is not an IP address, 3 unexplained, 4 sent elsewhere
 	forwarded  int
 	replies    [][]byte
@@ -432,6 +470,47 @@ type stepObs struct {
 
 // cookieFacts opens a cookie the way the server does and reports
 // [cookie, key id, 1 if a currently valid key opens it, C2S, S2C].
+// replyFacts opens a reply with the S2C key (AES-SIV recomputed here) and describes its cookies.
+func (e *env) replyFacts(r, s2c []byte) (authOK bool, nonce, ctRecomputed, plain []byte, cookies []string, cookieBytes [][]byte) {
+	pos, n, ct, ok := authParts(r)
+	if !ok {
+		return
+	}
+	nonce = n
+	pl, ok := sivOpen(s2c, n, ct, r[:pos])
+	if !ok {
+		return
+	}
+	authOK, plain = true, pl
+	ctRecomputed = sivSeal(s2c, n, pl, r[:pos])
+	// the cookies in the plaintext, as the project's decoder of cookie fields sees them
+	for q := 0; q+4 <= len(pl); {
+		l := int(pl[q+2])<<8 | int(pl[q+3])
+		if l < 4 || q+l > len(pl) {
+			break
+		}
+		if pl[q] == 0x02 && pl[q+1] == 0x04 {
+			f, _ := e.cookieFacts(pl[q+4 : q+l])
+			cookies = append(cookies, f)
+			cookieBytes = append(cookieBytes, append([]byte(nil), pl[q+4:q+l]...))
+		}
+		q += l
+	}
+	return
+}
+
+// noteIssued records the cookies handed out in a call and returns those seen before in this run.
+func (e *env) noteIssued(cs [][]byte) (before [][]byte) {
+	for _, c := range cs {
+		k := string(c)
+		if e.seen[k] {
+			before = append(before, c)
+		}
+		e.seen[k] = true
+	}
+	return before
+}
+
 func (e *env) cookieFacts(cookie []byte) (string, bool) {
 	var ec ntske.EncryptedServerCookie
 	if err := ec.Decode(cookie); err != nil {
@@ -470,6 +549,9 @@ func (e *env) runStep(x *cl, st step, old *[][]byte) stepObs {
 		}
 	case actKeBadSrv:
 		x.front.mode.Store(6)
+	case actKeOdd:
+		x.front.mode.Store(7 + st.arg%2)
+		x.front.arg.Store(st.arg / 2)
 	}
 	defer x.front.mode.Store(0)
 	timeout := waitLong
@@ -524,6 +606,18 @@ func (e *env) runStep(x *cl, st step, old *[][]byte) stepObs {
 		default:
 		}
 	}
+	if !o.sent {
+		// the call is over: a request that left just before is in the relay's queue by now
+		// (loopback delivery happens inside the client's send); it belongs to this call
+		if raw := x.drainOne(); raw != nil {
+			o.sent, o.late = true, true
+			rawReq = raw
+			o.req = raw
+			if x.scion {
+				o.req, _ = unwrapSCION(raw)
+			}
+		}
+	}
 	if o.sent {
 		d := x.fetcher.VerifData() // keys of this exchange (the pool is read again afterwards)
 		if pos, nonce, _, ok := authParts(o.req); ok {
@@ -537,14 +631,14 @@ func (e *env) runStep(x *cl, st step, old *[][]byte) stepObs {
 			}
 		}
 		act := st.action
-		if act == actKeFail || act == actKeBadSrv {
+		if o.late {
+			act = actDropReq // the client has given up already
+		}
+		if act == actKeFail || act == actKeBadSrv || act == actKeOdd {
 			act = actDeliver
 		}
 		if act == actReplay && len(*old) == 0 {
 			act = actDropReply
-		}
-		if x.scion && (act == actTamper || act == actReplay || act == actForge) {
-			act = actDropReply // these act on the NTS payload only; under SPAO they never reach the NTS code
 		}
 		forward := func() {
 			if x.scion {
@@ -569,26 +663,14 @@ func (e *env) runStep(x *cl, st step, old *[][]byte) stepObs {
 		o.curKey = -1
 		if len(o.replies) > 0 {
 			o.curKey = e.noteCurrent()
-			r := o.replies[0]
-			if pos, nonce, ct, ok := authParts(r); ok {
-				o.repNonce = nonce
-				if pl, ok := sivOpen(d.S2cKey, nonce, ct, r[:pos]); ok {
-					o.repAuthOK = true
-					o.repPlain = pl
-					o.repCT = sivSeal(d.S2cKey, nonce, pl, r[:pos])
-					// the cookies in the plaintext, as the project's decoder of cookie fields sees them
-					for q := 0; q+4 <= len(pl); {
-						l := int(pl[q+2])<<8 | int(pl[q+3])
-						if l < 4 || q+l > len(pl) {
-							break
-						}
-						if pl[q] == 0x02 && pl[q+1] == 0x04 {
-							f, _ := e.cookieFacts(pl[q+4 : q+l])
-							o.repCookies = append(o.repCookies, f)
-						}
-						q += l
-					}
-				}
+			var bs [][]byte
+			o.repAuthOK, o.repNonce, o.repCT, o.repPlain, o.repCookies, bs = e.replyFacts(o.replies[0], d.S2cKey)
+			o.issued = append(o.issued, bs...)
+			// further replies (to a duplicated request): each judged like the first
+			for _, r := range o.replies[1:] {
+				ok, _, _, _, cf, bs := e.replyFacts(r, d.S2cKey)
+				o.extra = append(o.extra, lib.L(lib.B(r), lib.Bool(ok), lib.L(cf...)))
+				o.issued = append(o.issued, bs...)
 			}
 		}
 		// what the client gets
@@ -615,8 +697,10 @@ func (e *env) runStep(x *cl, st step, old *[][]byte) stepObs {
 				g := make([]byte, 32)
 				rand.Read(g)
 				f = append(f, g...)
-				x.sock.WriteToUDP(f, caddr)
-				o.delivered = r
+				// (to the SCION client: in a SCION/UDP packet without packet authenticator, which goes
+				// straight to the NTS code)
+				x.sock.WriteToUDP(x.forClient(f, rawReq), caddr)
+				o.delivered = rawReplies[0]
 				o.intact = true
 			}
 		case actTamper:
@@ -637,10 +721,17 @@ func (e *env) runStep(x *cl, st step, old *[][]byte) stepObs {
 				}
 				bit := int(uint64(st.arg>>1) % uint64((hi-lo)*8))
 				r[lo+bit/8] ^= 1 << (bit % 8)
-				o.delivered = r
+				o.delivered = x.forClient(r, rawReq)
+				if x.scion && st.arg&2 != 0 {
+					// the same damage inside the original datagram: its packet authenticator no longer verifies
+					raw := append([]byte(nil), rawReplies[0]...)
+					off := len(raw) - len(r)
+					raw[off+lo+bit/8] ^= 1 << (bit % 8)
+					o.delivered = raw
+				}
 			}
 		case actReplay:
-			o.delivered = (*old)[int(uint64(st.arg)%uint64(len(*old)))]
+			o.delivered = x.forClient((*old)[int(uint64(st.arg)%uint64(len(*old)))], rawReq)
 		}
 		if len(o.replies) > 0 {
 			*old = append(*old, o.replies[0])
@@ -648,17 +739,22 @@ func (e *env) runStep(x *cl, st step, old *[][]byte) stepObs {
 		if o.delivered != nil {
 			x.sock.WriteToUDP(o.delivered, caddr)
 		}
-		if act != actTimeout {
+		if act != actTimeout && !o.late {
 			// end the client's wait whatever it thinks of what it got: it gives up after the
 			// second datagram it cannot use; a reply delivered before these is processed first
 			x.sock.WriteToUDP(x.junk(), caddr)
 			x.sock.WriteToUDP(x.junk(), caddr)
 		}
-		select {
-		case cerr = <-done:
-		case <-time.After(2 * waitLong):
-			fatal("client call did not return")
+		if !o.late {
+			select {
+			case cerr = <-done:
+			case <-time.After(2 * waitLong):
+				fatal("client call did not return")
+			}
 		}
+	}
+	for x.drainOne() != nil {
+		o.strayReqs++ // a call makes one request
 	}
 	o.clientErr = cerr != nil
 	d := x.fetcher.VerifData()
@@ -680,6 +776,25 @@ func (e *env) runStep(x *cl, st step, old *[][]byte) stepObs {
 	}
 	o.poolAfter = d.Cookie
 	o.c2s, o.s2c = d.C2sKey, d.S2cKey
+	if o.keDelta > 0 {
+		// the cookies of the key exchange: what is in the pool apart from this call's reply cookies, and the one sent
+		inReply := map[string]bool{}
+		for _, c := range o.issued {
+			inReply[string(c)] = true
+		}
+		for _, c := range d.Cookie {
+			if !inReply[string(c)] {
+				o.issued = append(o.issued, c)
+			}
+		}
+		var p nts.Packet
+		if o.sent && nts.DecodePacket(&p, o.req) == nil {
+			if c, err := p.FirstCookie(); err == nil {
+				o.issued = append(o.issued, c)
+			}
+		}
+	}
+	o.seenBefore = e.noteIssued(o.issued)
 	return o
 }
 
@@ -701,7 +816,7 @@ func (o *stepObs) String() string {
 		lib.I(int64(o.forwarded)), lib.I(int64(len(o.replies))), rep, lib.B(o.repNonce), lib.B(o.repCT),
 		lib.Bool(o.repAuthOK), lib.B(o.repPlain), lib.L(o.repCookies...),
 		lib.Bool(o.intact), lib.Bool(o.clientErr), lib.I(o.keDelta),
-		bl(o.poolAfter), lib.B(o.c2s), lib.B(o.s2c), lib.I(o.curKey), bl(o.forged), lib.I(int64(o.noSend)))
+		bl(o.poolAfter), lib.B(o.c2s), lib.B(o.s2c), lib.I(o.curKey), bl(o.forged), lib.I(int64(o.noSend)), lib.L(o.extra...), bl(o.seenBefore), lib.I(int64(o.strayReqs)))
 }
 
 func parseScript(args string) []step {
@@ -821,6 +936,10 @@ func childMain() {
 				t, a, o = e.runHist(parseScript(args), true)
 			case "c11.srv":
 				t, a, o = e.runSrv(args)
+			case "c11.conc":
+				t, a, o = e.runConc(args)
+			case "c11.ilv":
+				t, a, o = e.runIlv(args)
 			}
 			fmt.Fprintf(out, "CASE\t%s\t%s\t%s\t%s\n", kind, t, a, o)
 			out.Flush()
@@ -910,7 +1029,7 @@ func main() {
 		var scripts []job
 		for _, l := range lib.ReplayLines(a.Replay) {
 			switch l[0] {
-			case "c11.hist", "c11.shist", "c11.srv":
+			case "c11.hist", "c11.shist", "c11.srv", "c11.conc", "c11.ilv":
 				scripts = append(scripts, job{l[0], l[2]})
 			case "c11.store":
 				runStore(w, parseBL(l[2]), l[1])
@@ -929,6 +1048,14 @@ func main() {
 	runConst(w)
 	genFunctional(w, r.Fork(), a.Tier)
 	js := genSrv(r.Fork(), a.Tier)
+	nconc := 6
+	if a.Tier == "thorough" {
+		nconc = 60
+	}
+	for i := 0; i < nconc; i++ {
+		js = append(js, job{"c11.conc", lib.L(lib.I(800), lib.I(int64(lib.Pick(r, 4, 8, 12, 12))))})
+	}
+	js = append(js, genIlv(r.Fork(), a.Tier)...)
 	js = append(js, histJobs(genHistories(r.Fork(), a.Tier))...)
 	for _, sc := range genSCIONHistories(r.Fork(), a.Tier) {
 		js = append(js, job{"c11.shist", scriptString(sc)})
